@@ -73,17 +73,21 @@ CHECKS = {
               'DESIGN.md section 2 C05', _BASE_NOTE),
     'C06': _e('exploration',
               'metamorphic differential monitor: base run vs runs on '
-              'permuted / sub-sampled / embedded / duplicated cells and '
-              'other chunkings, joined on cell id',
+              'permuted / sub-sampled / embedded (among ordinary and among '
+              '1e9-1e17 times brighter cells) / duplicated cells and other '
+              'chunkings / encodings, joined on cell id',
               'Relation checked on every joined cell of every transformed '
               'run; near-tie cells (independent oracle) are don\'t-care.',
               'DESIGN.md section 2 C06', _BASE_NOTE),
     'C07': _e('exploration',
               'metamorphic differential monitor over paired real runs '
               '(raw vs normalised, per-cell scale, gene permutation, extra '
-              'genes: bitwise where the statement says so) + negative-input '
-              'rejection probe in three encodings',
-              'Five relations per generated world.',
+              'genes: bitwise where the statement says so; random, '
+              'reference-order and marker-interior-shuffled gene orders) + '
+              'negative-input rejection probe in three encodings and six '
+              'HDF5 storage layouts of dense files',
+              'Five relations per generated world, three gene orders, four '
+              'negative-value files.',
               'DESIGN.md section 2 C07', _BASE_NOTE),
     'C08': _e('exploration',
               'reference-model monitor: a direct model of the statement '
@@ -97,6 +101,7 @@ CHECKS = {
     'C09': _e('exploration',
               'reference-model monitor: the real statistics writers, '
               'truncation and merge run on labelled matrices held in memory; '
+              '(truncation also in two steps and from row-permuted files); '
               'every dataset of every written file compared with an '
               'independent computation (exact integer arithmetic for the '
               'CPM thresholds, CPM == 1 boundary entries generated on '
@@ -148,14 +153,15 @@ CHECKS = {
     'C14': _e('fault_enumeration',
               'fault injection through a multiprocessing.Process proxy '
               'installed in each stage module (workers are forks and inherit '
-              'it): every worker x {SIGKILL, os._exit(3), raise} x {before, '
-              'mid-way, after}; monitor on the parent call (must raise), on '
+              'it): every worker x {SIGKILL, SIGTERM, os._exit(3), '
+              'sys.exit(7), raise} x {before, mid-way, after}; monitor on the parent call (must raise), on '
               'the victim exit code (fault really delivered) and on the '
               'files left behind (no results / CSV / success message; '
               'partial stage outputs fed to the next stage\'s reader)',
               'Thorough tier enumerates the full (stage, worker, mode, '
               'point) product on a small input; quick tier covers every '
-              '(stage, mode, point) on a rotating worker.',
+              '(stage, mode, point) on a rotating worker, plus the first and '
+              'last worker for SIGKILL and raise.',
               'DESIGN.md section 2 C14',
               _BASE_NOTE + ' Mid-way = first call of one inner function of '
               'the stage inside the victim; crash points inside C '
@@ -182,15 +188,18 @@ CHECKS = {
     'C17': _e('exploration',
               'differential monitor over paired real runs with a common '
               'seed: configuration-level drop / flatten vs a reference '
-              'whose taxonomy is already reduced; bitwise comparison of '
+              'whose taxonomy is already reduced (also drop + flatten in one '
+              'run, and dropping an absent level); bitwise comparison of '
               'level records',
-              'Every droppable level of every generated taxonomy.',
+              'Every droppable level of every generated taxonomy, alone and '
+              'combined with flatten.',
               'DESIGN.md section 2 C17', _BASE_NOTE),
     'C18': _e('exploration',
               'end-to-end chain monitor: the pipeline\'s own stages run one '
               'after the other on generated references (each stage reading '
               'the previous stage\'s file), then the centroid query is '
-              'mapped with the trace hook on; the statement\'s precondition '
+              'mapped with the trace hook on in 4-6 gene orders, '
+              'hierarchical and flattened; the statement\'s precondition '
               '(no rival leaf perfectly correlated on the drawn genes) is '
               'evaluated per (centroid, node, iteration) by the independent '
               'vote oracle',
@@ -204,7 +213,9 @@ CHECKS = {
               'write-set monitor (every path opened for writing, created, '
               'renamed or removed must be a declared output or scratch); '
               'history monitor (stale files planted under every name '
-              'pattern, success after success / failure) and concurrent '
+              'pattern, success after success / failure, an earlier run\'s '
+              'same-named statistics file next to the marker file) and '
+              'concurrent '
               'pairs sharing directories, compared bitwise with solo / '
               'clean-directory results',
               'Every stage of the chain, 13 failure classes, every stale '
